@@ -211,6 +211,16 @@ class NpProxy:
         return _np.isinf(x)
 
     @staticmethod
+    def allclose(a, b, rtol=1e-05, atol=1e-08, equal_nan=False):  # noqa: FBT002
+        r = NpProxy.isclose(a, b, rtol=rtol, atol=atol, equal_nan=equal_nan)
+        if isinstance(r, _np.ndarray) and r.dtype == object:
+            terms = [x.t if isinstance(x, SymBool) else z3.BoolVal(bool(x)) for x in r.ravel()]
+            return SymBool(z3.And(*terms)) if terms else True
+        if isinstance(r, SymBool):
+            return r
+        return bool(_np.all(r))
+
+    @staticmethod
     def isclose(a, b, rtol=1e-05, atol=1e-08, equal_nan=False):  # noqa: FBT002
         """numpy's definition |a - b| <= atol + rtol * |b| (finite symbolic reals; scalars or equal-shape arrays)."""
         if not (any_sym(a) or any_sym(b) or any_sym(atol) or any_sym(rtol)):
